@@ -79,7 +79,9 @@ func Walk(ctx context.Context, fileSystem fs.FS, prefix, delimiter, marker strin
 		if path == "." {
 			return nil
 		}
-		if contains(d.Name(), skipdirs) {
+		// skipdirs are paths of internal directories: a file, or a directory
+		// elsewhere, that merely has the same name is an ordinary entry
+		if d.IsDir() && contains(path, skipdirs) {
 			return fs.SkipDir
 		}
 
@@ -340,7 +342,9 @@ func WalkVersions(ctx context.Context, fileSystem fs.FS, prefix, delimiter, keyM
 		if path == "." {
 			return nil
 		}
-		if contains(d.Name(), skipdirs) {
+		// skipdirs are paths of internal directories: a file, or a directory
+		// elsewhere, that merely has the same name is an ordinary entry
+		if d.IsDir() && contains(path, skipdirs) {
 			return fs.SkipDir
 		}
 
